@@ -33,7 +33,7 @@ Theorem C11_annotate_child_current :
   compute_with cis o ps hist entries sortf = Ok (ps', results) ->
   nth_error ps p = Some par -> p_visible par = true ->
   nth_error (p_refs par) j = Some r -> filtered_out (o_filter o) r = false ->
-  hist (r_id r) = HFound cl ->
+  hist (r_id r) = HFound cl -> cl <> [] ->
   forallb (commit_child cis) cl = true -> stamps_monotone cis cl = true ->
   exists par' r',
     nth_error ps' p = Some par' /\ nth_error (p_refs par') j = Some r' /\
@@ -53,7 +53,7 @@ Theorem C11_annotate_child_selected :
   compute_with cis o ps hist entries sortf = Ok (ps', results) ->
   nth_error ps p = Some par -> p_visible par = true ->
   nth_error (p_refs par) j = Some r -> filtered_out (o_filter o) r = false ->
-  hist (r_id r) = HFound cl ->
+  hist (r_id r) = HFound cl -> cl <> [] ->
   exists par' r',
     nth_error ps' p = Some par' /\ nth_error (p_refs par') j = Some r' /\
     r' = match find_visible cis cl (p_changeset par) (pstamp cis par) (o_threshold o) with
@@ -73,12 +73,13 @@ Theorem C11_deleted_parent_untouched :
 Proof. exact deleted_parent_untouched. Qed.
 Print Assumptions C11_deleted_parent_untouched.
 
-(* 4. missing child history: every run fails unless IgnoreMissingChildren ... *)
+(* 4. missing child history (not found, or found but empty — repaired by /repo 43ff9c3): every run
+      fails unless IgnoreMissingChildren ... *)
 Theorem C11_missing_history_error :
   forall cis o ps hist entries sortf p par j r,
   valid_order o ps entries ->
   nth_error ps p = Some par -> nth_error (p_refs par) j = Some r ->
-  filtered_out (o_filter o) r = false -> hist (r_id r) = HNotFound -> o_ignore_missing o = false ->
+  filtered_out (o_filter o) r = false -> missing_hist (hist (r_id r)) = true -> o_ignore_missing o = false ->
   exists e, compute_with cis o ps hist entries sortf = Err e.
 Proof. exact missing_history_error. Qed.
 Print Assumptions C11_missing_history_error.
@@ -87,7 +88,7 @@ Print Assumptions C11_missing_history_error.
 Theorem C11_no_history_error_typed :
   forall cis o ps hist entries sortf fid,
   compute_with cis o ps hist entries sortf = Err (ENoHistory fid) ->
-  o_ignore_missing o = false /\ hist fid = HNotFound /\ exists locs, In (fid, locs) entries.
+  o_ignore_missing o = false /\ missing_hist (hist fid) = true /\ exists locs, In (fid, locs) entries.
 Proof. exact no_history_error_typed. Qed.
 Print Assumptions C11_no_history_error_typed.
 
@@ -96,7 +97,7 @@ Theorem C11_no_visible_child_error :
   forall cis o ps hist entries sortf p par j r cl,
   valid_order o ps entries ->
   nth_error ps p = Some par -> p_visible par = true -> nth_error (p_refs par) j = Some r ->
-  filtered_out (o_filter o) r = false -> hist (r_id r) = HFound cl ->
+  filtered_out (o_filter o) r = false -> hist (r_id r) = HFound cl -> cl <> [] ->
   find_visible cis cl (p_changeset par) (pstamp cis par) (o_threshold o) = None ->
   o_ignore_incons o = false ->
   exists e, compute_with cis o ps hist entries sortf = Err e.
